@@ -183,9 +183,11 @@ class Parser:
             self.eat()
             return ("pwild",)
         if v in ("ref", "mut"):
-            self.eat()
-            if self.at("mut") or self.at("ref"): self.eat()
-            return ("pid", self.eat()[1])
+            first = self.eat()[1]
+            second = None
+            if self.at("mut") or self.at("ref"): second = self.eat()[1]
+            name = self.eat()[1]
+            return ("pid", name, "refmut") if (first == "ref" and second == "mut") else ("pid", name)
         if k == "num" or v == "-":
             neg = ""
             if v == "-": self.eat(); neg = "-"
@@ -489,6 +491,16 @@ def parse_body(body_txt):
 #                      ("unit",) ("bidx", bool)  (a bool converted into an index)  ("fn", name) ("closure", ast, env)
 #                      ("obj", kind, payload)    opaque objects with primitive methods (ring buffer, median window, sub-filter)
 
+EFFECT_METHODS = ("source", "filter", "sink", "next", "pop_front", "pop_back", "push_back", "push", "take", "peek")
+def effectful(node):
+    """does this expression call a method that changes state?"""
+    if isinstance(node, tuple):
+        if node and node[0] == "mcall" and node[2] in EFFECT_METHODS: return True
+        return any(effectful(x) for x in node)
+    if isinstance(node, list): return any(effectful(x) for x in node)
+    return False
+
+
 class Panics(Exception):
     """the executed path ends in a panic (unwrap of None, ...): the lemma for this path says the model returns None"""
 
@@ -507,7 +519,7 @@ def as_nat(v):
 OBJ_PRINT = {}      # object kind -> printer (registered by the entry definitions)
 def T(t): return ("T", t)
 def B(b): return ("B", b)
-ENUM_TYPES = ("Ordering", "Slope", "Peak")
+ENUM_TYPES = ("Ordering", "Slope", "Peak", "ChainState", "PadState")
 ENUM_COQ = {"Rising": "Rising", "None": "Flat", "Falling": "Falling", "Max": "PMax", "Min": "PMin", "Less": "Lt", "Equal": "Eq", "Greater": "Gt"}
 
 
@@ -602,6 +614,7 @@ class Sym:
         self.dyn_hyps = []      # hypotheses `call = result pattern` about those calls, in evaluation order
         self.world = None       # name of the current "world" variable threaded through abstract stage calls
         self.counter = 0
+        self.depth = 0          # nesting of calls of the receiver's own methods (the model's recursion consumes fuel)
         self.assume = None      # path-splitting mode: list of booleans consumed at every symbolic branch (see NeedAssumption)
         self.taken = []         # the assumptions actually consumed
         self.reads = {}         # (buffer name, index text) -> node variable: array reads already assumed
@@ -682,6 +695,12 @@ class Sym:
 
     def updated(self, cur, path, v):
         if not path: return v
+        if isinstance(path[0], int):
+            if cur[0] == "variant":
+                pl = list(cur[2]); pl[path[0]] = self.updated(pl[path[0]], path[1:], v); return ("variant", cur[1], pl)
+            if cur[0] == "tuple":
+                pl = list(cur[1]); pl[path[0]] = self.updated(pl[path[0]], path[1:], v); return ("tuple", pl)
+            raise Unsupported("positional update on %s" % cur[0])
         if cur[0] != "struct": raise Unsupported("field update on a non-struct value")
         d = dict(cur[1])
         if path[0] not in d: raise Unsupported("no field %s" % path[0])
@@ -689,15 +708,30 @@ class Sym:
         return ("struct", d)
 
     # ---- pattern matching against values of known shape: returns bindings or None (no match)
-    def pmatch(self, pat, v):
+    def pmatch(self, pat, v, where=None):
+        """bindings of a pattern against a value of known shape, or None; `where` = (root variable, path) of the matched place:
+        a `ref mut` binding then aliases the place instead of copying the value"""
         k = pat[0]
         if k == "pwild": return {}
-        if k == "pid": return {pat[1]: v}
+        if k == "pid":
+            if len(pat) > 2 and pat[2] == "refmut" and where is not None: return {pat[1]: ("ref", where[0], where[1])}
+            return {pat[1]: v}
         if k == "ptuple":
             if v[0] != "tuple" or len(v[1]) != len(pat[1]): raise Unsupported("tuple pattern against %s" % v[0])
             out = {}
             for p, x in zip(pat[1], v[1]):
                 b = self.pmatch(p, x)
+                if b is None: return None
+                out.update(b)
+            return out
+        if k == "ptstruct" and len(pat[1]) >= 2 and pat[1][-2] in ENUM_TYPES:
+            if v[0] == "enum": return None
+            if v[0] != "variant": raise Unsupported("variant pattern against %s" % v[0])
+            if v[1] != pat[1][-1]: return None
+            if len(v[2]) != len(pat[2]): raise Unsupported("variant arity")
+            out = {}
+            for k_, (p, x) in enumerate(zip(pat[2], v[2])):
+                b = self.pmatch(p, x, None if where is None else (where[0], where[1] + [k_]))
                 if b is None: return None
                 out.update(b)
             return out
@@ -711,6 +745,7 @@ class Sym:
         if k == "ppath":
             name = pat[1][-1]
             if len(pat[1]) >= 2 and pat[1][-2] in ENUM_TYPES:
+                if v[0] == "variant": return None
                 if v[0] != "enum": raise Unsupported("enum pattern %s against a value of kind %s" % ("::".join(pat[1]), v[0]))
                 return {} if v[1] == name else None
             if name == "None":
@@ -718,6 +753,7 @@ class Sym:
                 return {} if v[1] is None else None
             if v[0] == "enum":
                 return {} if v[1] == name else None
+            if v[0] == "variant": return None
             raise Unsupported("path pattern %s against %s" % (name, v[0]))
         if k == "pstruct":
             if v[0] != "struct": raise Unsupported("struct pattern against %s" % v[0])
@@ -807,7 +843,10 @@ class Sym:
             raise Unsupported("field access .%s on %s" % (e[2], v[0]))
         if k == "tuple": return ("tuple", [self.ev(x, env) for x in e[1]])
         if k == "array": return ("array", [self.ev(x, env) for x in e[1]])
-        if k == "struct": return ("struct", {f: self.ev(x, env) for f, x in e[2]})
+        if k == "struct":
+            d = {f: self.ev(x, env) for f, x in e[2]}
+            if e[1] == ["Self"] and getattr(self, "cur_cls", None): d["__sub"] = ("mark", self.cur_cls)
+            return ("struct", d)
         if k == "block": return self.block(e, env)
         if k == "assign":
             self.store(env, e[1], self.ev(e[2], env))
@@ -831,6 +870,13 @@ class Sym:
             if e[1] == "!" and v[0] == "B": return B(self.bnot(v[1]))
             if e[1] == "-" and v[0] == "T": return T(("neg", v[1]))
             raise Unsupported("unary %s on %s" % (e[1], v[0]))
+        if k == "bin" and e[1] in ("&&", "||") and effectful(e[3]):
+            a = self.ev(e[2], env)
+            if a[0] != "B": raise Unsupported("operand of %s is not a boolean" % e[1])
+            if a[1] not in (("btrue",), ("bfalse",)):
+                a = B(("btrue",) if self.decide("%s = true" % coq_B(a[1]), "%s = false" % coq_B(a[1])) else ("bfalse",))
+            if (e[1] == "&&") == (a[1] == ("bfalse",)): return a          # short circuit: the right operand is NOT evaluated
+            return self.ev(e[3], env)
         if k == "bin": return self.binop(e[1], self.ev(e[2], env), self.ev(e[3], env))
         if k == "if":
             c = self.ev(e[1], env)
@@ -847,6 +893,10 @@ class Sym:
             return self.ev(e[4], env) if e[4] is not None else ("unit",)
         if k == "match":
             v = self.ev(e[1], env)
+            try:
+                self.match_place = self.lpath(e[1])
+            except Unsupported:
+                self.match_place = None
             if v[0] == "cmp":          # Option<Ordering> of a partial comparison: a four-way symbolic split
                 return self.match_cmp(v, e[2], env)
             if v[0] == "cmpsplit":     # a value that already depends on an earlier comparison: match in each of its branches
@@ -867,15 +917,21 @@ class Sym:
         if k == "call":
             f = e[1]
             if f[0] == "path" and "::".join(f[1]) in self.fns:
-                ast, pnames = self.fns["::".join(f[1])]
+                fdef = self.fns["::".join(f[1])]
+                ast, pnames = fdef[0], fdef[1]
                 args = [self.ev(a, env) for a in e[2]]
                 if len(args) != len(pnames): raise Unsupported("arity of the call of %s" % "::".join(f[1]))
                 inner = Env()
                 for pn, a in zip(pnames, args): inner.vars[pn] = a
+                saved = getattr(self, "cur_cls", None)
+                self.cur_cls = fdef[2] if len(fdef) > 2 else None
                 try:
                     return self.block(ast, inner)
                 except Return as r:
                     return r.value
+                finally:
+                    self.cur_cls = saved
+            if f[0] == "path" and len(f[1]) >= 2 and f[1][-2] in ENUM_TYPES: return ("variant", f[1][-1], [self.ev(a, env) for a in e[2]])
             if f[0] == "path" and f[1] == ["Self", "with_config"] and len(e[2]) == 1: return ("struct", {"config": self.ev(e[2][0], env)})
             if f[0] == "path" and f[1][-1] == "Some" and len(e[2]) == 1: return ("opt", self.ev(e[2][0], env))
             if f[0] == "path" and f[1][-1] in ("zero", "one") and not e[2]: return T(("zero",) if f[1][-1] == "zero" else ("one",))
@@ -894,8 +950,9 @@ class Sym:
 
     def match_value(self, v, arms, env):
         if v[0] == "optraw": v = self.split_opt(v)
+        place = getattr(self, "match_place", None); self.match_place = None
         for pat, body in arms:
-            b = self.pmatch(pat, v)
+            b = self.pmatch(pat, v, (place[0], list(place[1])) if place else None)
             if b is not None:
                 inner = Env(env)
                 inner.vars.update(b)
@@ -997,6 +1054,14 @@ class Sym:
             if op == "!=": return B(("not", ("eq", x, y)))
         if (a[0] == "Nat" or b[0] == "Nat") and as_nat(a) is not None and as_nat(b) is not None:
             x, y = as_nat(a), as_nat(b)
+            if y == "0" and (x == "0" or x.startswith("(S ")):        # counters of known shape: 0 / S c
+                pos = x != "0"
+                if op == "==": return B(("bfalse",) if pos else ("btrue",))
+                if op == "!=" or op == ">": return B(("btrue",) if pos else ("bfalse",))
+                if op == ">=": return B(("btrue",))
+                if op == "<": return B(("bfalse",))
+                if op == "<=": return B(("bfalse",) if pos else ("btrue",))
+            if op == "-" and y == "1" and x.startswith("(S ") and x.endswith(")"): return ("Nat", x[3:-1])
             if op == "+": return ("Nat", "(%s + %s)" % (x, y))
             if op == "-": return ("Nat", "(%s - %s)" % (x, y))
             if op == "&": return ("Nat", "(Nat.land %s %s)" % (x, y))
@@ -1113,6 +1178,9 @@ class Sym:
                 b = self.pmatch(f[1][1][0], recv[1])
                 inner.vars.update(b)
                 return ("opt", self.ev(f[1][2], inner))
+        if recv[0] == "opt" and name == "take" and not args_e:
+            self.store(env, recv_e, ("opt", None))
+            return recv
         if recv[0] == "struct" and "__sub" in recv[1] and ((recv[1]["__sub"][1], name) in self.subs or name in ("filter", "sink")):
             # a call into an inner filter whose own body is translated from its source: execute that body
             sub = recv[1]["__sub"][1]
@@ -1123,11 +1191,17 @@ class Sym:
             inner.vars["self"] = recv
             args = [self.ev(a, env) for a in args_e]
             if len(args) != len(pnames): raise Unsupported("arity of the inner filter call")
+            selfcall = recv_e == ("path", ["self"])
+            if selfcall:
+                self.depth += 1
+                if self.depth > 6: raise Unsupported("self recursion deeper than 6")
             for pn, a in zip(pnames, args): inner.vars[pn] = a
             try:
                 ret = self.block(ast, inner)
             except Return as r:
                 ret = r.value
+            finally:
+                if selfcall: self.depth -= 1
             self.store(env, recv_e, inner.get("self"))
             return ret
         if recv[0] == "obj":
@@ -1207,6 +1281,10 @@ def coq_V(v):
 
 def lookup(v, path):
     for f in path:
+        if isinstance(f, int):
+            if v[0] == "variant": v = v[2][f]; continue
+            if v[0] == "tuple": v = v[1][f]; continue
+            raise Unsupported("positional access into %s" % v[0])
         if v[0] != "struct" or f not in v[1]: raise Unsupported("result has no field %s" % f)
         v = v[1][f]
     return v
